@@ -57,6 +57,7 @@ PROPS = {
     'C10': dict(suites=[('snap', [])], column='dur', clscol='dcls', relevant=lambda r: 'C10' in r['f'].get('own', ''), title='Snapshots are crash-atomic'),
     'C05': dict(suites=[('sched', [])], column='atom', clscol='acls', relevant=lambda r: 'atom' in r['f'], title='Commands are atomic'),
     'C09': dict(suites=[('aof', [])], column='dur', clscol='dcls', relevant=lambda r: 'C09' in r['f'].get('own', ''), title='Log rewrite transparent and crash-atomic'),
+    'C18': dict(suites=[('pubsub', [])], column='ps', clscol='scls', relevant=lambda r: True, title='Pub/Sub'),
     'C19': dict(suites=ALL_DATA, column='mem', clscol='mcls', relevant=lambda r: True, title='Memory figure is a function of the dataset'),
     'C20': dict(suites=ALL_DATA, column='iso', relevant=lambda r: True, title='Logical databases are isolated'),
 }
@@ -113,8 +114,15 @@ def build(cx, prop=None):
     lock = open(os.path.join(cx.cache, 'lock'), 'w')
     fcntl.flock(lock, fcntl.LOCK_EX)
     try:
-        shutil.copyfile('/repo/go.sum', os.path.join(cx.harness, 'go.sum'))
-        r = run(['go', 'build', '-tags', 'verif', '-o', cx.vh + '.new', './vh/'], cwd=cx.harness, timeout=900)
+        repo = os.environ.get('VERIF_REPO', '/repo')     # VERIF_REPO: build against another working tree of the project
+        shutil.copyfile(os.path.join(repo, 'go.sum'), os.path.join(cx.harness, 'go.sum'))
+        extra = []
+        if repo != '/repo':
+            mf = os.path.join(cx.cache, 'alt.mod')
+            open(mf, 'w').write(open(os.path.join(cx.harness, 'go.mod')).read().replace('=> /repo', '=> ' + repo))
+            shutil.copyfile(os.path.join(repo, 'go.sum'), os.path.join(cx.cache, 'alt.sum'))
+            extra = ['-modfile=' + mf]
+        r = run(['go', 'build'] + extra + ['-tags', 'verif', '-o', cx.vh + '.new', './vh/'], cwd=cx.harness, timeout=900)
         res['harness_log'] = r.stdout
         if r.returncode != 0:
             return res
@@ -279,6 +287,27 @@ def run_suite(cx, work, suite, args, seed, tier, replay=None):
             m = verd.get(seq, ('?', 'no verdict', {}))
             rows.append(dict(seq=seq, now=0, db=0, cmd=[w[3].encode()], kind='image', payload=b'', pre='', post='x', name='image@' + w[3].split('>')[0].split('~')[0].split('+')[0],
                              model=m[0], detail=m[1], f=m[2], suite=suite, line='X'))
+        elif l.startswith('P ') or l.startswith('G '):
+            w = l.rstrip('\n').split(' ')
+            seq = w[1]
+            m = verd.get(seq, ('?', 'no verdict', {}))
+            cmd, kind, payload = [], 'glob', b''
+            if l.startswith('P '):
+                # first command of the block: <conn> <argc> <args>* <kind> <payload>
+                n = int(w[3])
+                kind = w[2]
+                if n > 0:
+                    argc = int(w[5])
+                    cmd = [unx(x) for x in w[6:6 + argc]]
+                    payload = unx(w[6 + argc + 1])
+                    if n == 1:
+                        kind = w[6 + argc]
+                name = m[2].get('shape', 'pubsub').split('/')[0]
+            else:
+                cmd = [unx(w[2]), unx(w[3])]
+                name = 'glob'
+            rows.append(dict(seq=seq, now=0, db=0, cmd=cmd, kind=kind, payload=payload, pre='', post='', name=name,
+                             model=m[0], detail=m[1], f=m[2], suite=suite, line=l[0]))
         elif l.startswith('T '):
             t = parse_tline(l.rstrip('\n'))
             m = verd.get(t['seq'], ('?', 'no verdict', {}))
@@ -297,7 +326,7 @@ def run_suite(cx, work, suite, args, seed, tier, replay=None):
 
 
 def seq_prefix(seqmap, seqid):
-    if seqid in seqmap and ('z' in seqmap[seqid] or 'writes' in seqmap[seqid]):
+    if seqid in seqmap and ('z' in seqmap[seqid] or 'writes' in seqmap[seqid] or 'glob' in seqmap[seqid]):
         return seqmap[seqid]                      # a single authorization decision / one wire session
     parts = seqid.split('.')
     if parts[0] in seqmap and 'base' in seqmap[parts[0]]:
@@ -382,6 +411,21 @@ def shrink(cx, work, suite, seq, pred, budget=60):
             ops = cand['ops']
         else:
             i += 1
+    # blocks of several commands (pub/sub): also drop commands inside the last block
+    if ops and isinstance(ops[-1], dict) and len(ops[-1].get('cmds', [])) > 1:
+        j = 0
+        while j < len(ops[-1]['cmds']) and len(ops[-1]['cmds']) > 1 and tries < budget + 20:
+            blk = dict(ops[-1], cmds=ops[-1]['cmds'][:j] + ops[-1]['cmds'][j + 1:])
+            cand = dict(seq, ops=ops[:-1] + [blk])
+            tries += 1
+            try:
+                rows = replay_seq(cx, work, suite, cand, 'shrink')
+            except Exception:
+                rows = []
+            if rows and pred(rows[-1]):
+                ops = cand['ops']
+            else:
+                j += 1
     return dict(seq, ops=ops)
 
 
@@ -465,7 +509,11 @@ def decide(cx, prop, tier, seed, t_start):
                 notes.append('listed finding %s did not reproduce on its witness (verdict %s, class %s) — not an alarm' % (k['class'], v, last['f'].get(spec.get('clscol', 'cls')) if last else None))
         # ---- sweep
         for suite, args in spec['suites']:
-            rows, seqmap, dt = run_suite(cx, work, suite, args, seed, tier)
+            try:
+                rows, seqmap, dt = run_suite(cx, work, suite, args, seed, tier)
+            except RuntimeError as e:
+                log('check: %s' % e)        # the machinery failed (e.g. observation points missing from the tree)
+                return 2
             harness_s += dt
             rows_all += rows
             seqmaps[suite] = seqmap
@@ -502,7 +550,10 @@ def decide(cx, prop, tier, seed, t_start):
         seq = seq_prefix(seqmaps.get(suite, {}), row['seq']) if row else None
         if seq is not None and found:
             try:
-                seq = shrink(cx, work, suite, seq, lambda x: failing(x, col))
+                # keep what makes the transition an alarm: a model diff / hang, or a rejection outside the listed classes
+                # (shrinking towards a rejection that is a listed finding would lose the failure)
+                seq = shrink(cx, work, suite, seq, lambda x: x['model'] in ('DIFF', 'HANG', '?') or
+                             (x['f'].get(col, 'na').startswith('rej') and x['f'].get(clscol, '-') not in known_classes))
             except Exception as e:
                 notes.append('shrink failed: %s' % e)
         body = dict(property=prop, kind=kind, suite=suite, seq=seq, detail=extra,
@@ -516,7 +567,7 @@ def decide(cx, prop, tier, seed, t_start):
 
     # 1. a spec rejection outside the listed findings (or a listed class failing differently from the model)
     if rejs_unknown:
-        r0 = sorted(rejs_unknown, key=lambda r: int(re.sub(r'\D', '', r['seq'].rsplit('.', 1)[-1]) or 0))[0]
+        r0 = sorted(rejs_unknown, key=lambda r: (r['f'].get(clscol, '-') in known_classes, int(re.sub(r'\D', '', r['seq'].rsplit('.', 1)[-1]) or 0)))[0]
         emit_violation('spec-rejection', r0, 'spec verdict %s class %s; %d such transitions' % (r0['f'].get(col), r0['f'].get(clscol), len(rejs_unknown)), True)
     # 2. model/implementation disagreement with the spec still satisfied at those transitions
     elif diffs:
@@ -538,7 +589,7 @@ def decide(cx, prop, tier, seed, t_start):
     # ---- evidence
     distinct = set()
     for r in rel:
-        if r.get('line') in ('Z', 'A', 'W') or r['pre'] != r['post'] or (r['kind'] == 'ok' and r['payload'] not in (b'$-1\r\n', b'')):
+        if r.get('line') in ('Z', 'A', 'W', 'P', 'G') or r['pre'] != r['post'] or (r['kind'] == 'ok' and r['payload'] not in (b'$-1\r\n', b'')):
             distinct.add((r['name'], len(r['cmd']), r['kind'], r['f'].get(col, 'na'), r['f'].get(clscol, '-'), r['f'].get('shape', '')))
     samples = []
     seen = set()
@@ -599,7 +650,7 @@ def do_replay(cx, prop, path):
     bad = False
     for r in rows:
         v = r['f'].get(spec['column'], 'na')
-        print('%-10s %-40s -> %s %r | model=%s %s | spec[%s]=%s class=%s' % (r['seq'], pretty_cmd(r['cmd'])[:40], r['kind'], r['payload'][:50], r['model'], r['detail'][:120], spec['column'], v, r['f'].get('cls')))
+        print('%-10s %-40s -> %s %r | model=%s %s | spec[%s]=%s class=%s' % (r['seq'], pretty_cmd(r['cmd'])[:40], r['kind'], r['payload'][:50], r['model'], r['detail'][:120], spec['column'], v, r['f'].get(spec.get('clscol', 'cls'))))
     if rows and failing(rows[-1], spec['column']):
         bad = True
         print('REPRODUCED: last transition still departs (model=%s, spec=%s)' % (rows[-1]['model'], rows[-1]['f'].get(spec['column'])))
